@@ -291,3 +291,110 @@ def replay_c19(path, family, want_phase=2, procs=NCPU):
             if len(samples) < 3:
                 samples += s
     return total, bad, samples[:3]
+
+
+# ------------------------------------------------------------------ hash-table machine
+def judge_hash_res(last, res):
+    """verdict for the step's own result"""
+    if last[0] == "new":
+        return "ok" if res[0] == "new" else "raised"
+    if last[0] == "none":
+        return "ok" if res[0] == "none" else "raised"
+    exp = last[1]
+    if exp[0] == "unspec":
+        return "unspec"
+    if res[0] != "obs":
+        return "not-refused" if exp[0] == "refused" else "kind"
+    out = res[1]
+    if exp[0] == "refused":
+        return "ok" if out[0] == "raised" else "not-refused"
+    if out[0] == "raised":
+        return "raised"
+    if exp[0] != out[0]:
+        return "kind"
+    return "ok" if _norm_list(exp[1:]) == _norm_list(out[1:]) else "value"
+
+
+def _norm_list(v):
+    return [_norm_list(x) for x in v] if isinstance(v, (list, tuple)) else (int(v) if isinstance(v, bool) else v)
+
+
+def judge_hash_state(st, run):
+    bad = []
+    tabs = st["tabs"]
+    final = run[-1]
+    obs = final["obs"]
+    v = judge_hash_res(st["hlast"], final["res"])
+    if v not in ("ok", "unspec"):
+        bad.append({"verdict": v, "expected": st["hlast"], "observed": final["res"], "handle": 0})
+    if len(obs) != len(tabs):
+        if v == "ok":
+            bad.append({"verdict": "handles", "expected": ["tables", len(tabs)], "observed": ["tables", len(obs)], "handle": 0})
+        return bad, v
+    for g, (t, ob) in enumerate(zip(tabs, obs), 1):
+        if ob[0] == "raised":
+            bad.append({"verdict": "raised", "expected": ["vals", t[1]], "observed": ob, "handle": g})
+        elif ob[0] == "set":
+            if any(x != 1 for x in ob[1]):
+                bad.append({"verdict": "value", "expected": ["set", [1] * len(t[0])], "observed": ob, "handle": g})
+        elif _norm_list(ob[1]) != _norm_list(t[1]):
+            bad.append({"verdict": "value", "expected": ["vals", t[1]], "observed": ob, "handle": g})
+    return bad, v
+
+
+def _hash_worker(args):
+    path, start, end, prop, variants_name, min_len = args
+    from . import exec_hash
+    vmod = importlib.import_module("harness.props")
+    variants = getattr(vmod, variants_name)
+    with open(path, "rb") as f:
+        f.seek(start)
+        text = f.read(end - start).decode()
+    stats = {"cases": 0, "evals": 0, "ok": 0, "unspec": 0, "nontrivial": 0, "observations": 0}
+    bad, samples = [], []
+    for body in tlaparse.split_states(text):
+        st = tlaparse.parse_state(body, ("hist", "tabs", "hlast"))
+        prog = st.get("hist")
+        if not prog or len(prog) < min_len:
+            continue
+        stats["cases"] += 1
+        stats["nontrivial"] += len(prog) >= 2
+        if len(samples) < 1:
+            samples.append({"program": prog, "expected_tables": st["tabs"], "expected_result": st["hlast"]})
+        for opts in variants(prop, ["program", prog]):
+            try:
+                signal.signal(signal.SIGALRM, _alarm)
+                signal.alarm(CASE_TIMEOUT)
+                run = exec_hash.run_program(prog, opts, observe="last")
+            except _Timeout:
+                bad.append({"steps": prog, "opts": opts, "verdict": "noreturn", "expected": None, "observed": ["noreturn"], "handle": 0})
+                continue
+            finally:
+                signal.alarm(0)
+            stats["evals"] += 1
+            stats["observations"] += len(st["tabs"])
+            b, v = judge_hash_state(st, run)
+            if v == "unspec":
+                stats["unspec"] += 1
+            if not b:
+                stats["ok"] += 1
+            for x in b:
+                x.update({"steps": prog, "opts": opts})
+            bad += b
+    return stats, bad, samples
+
+
+def replay_hash_dump(path, prop, variants_name="hash_variants", min_len=1, procs=NCPU):
+    offs = _split_offsets(path, procs * 4)
+    tasks = [(path, a, b, prop, variants_name, min_len) for a, b in zip(offs, offs[1:])]
+    total = {"cases": 0, "evals": 0, "ok": 0, "unspec": 0, "nontrivial": 0, "observations": 0}
+    bad, samples = [], []
+    ctx = mp.get_context("fork")
+    with ctx.Pool(procs) as pool:
+        for stats, b, s in pool.imap_unordered(_hash_worker, tasks):
+            for k in total:
+                total[k] += stats[k]
+            bad += b
+            if len(samples) < 3:
+                samples += s
+    return total, bad, samples[:3]
